@@ -18,6 +18,9 @@ CLAIMED = {
  "C20": ("model_checking", "stateless model checking of the real code under a hand-written cooperative scheduler (DFS over replayed choice prefixes, iterated preemption and pool-answer deviation bounds), plus a free-running -race pass",
          "sync is replaced by a shim (verif/vsync) through a build overlay generated from the working tree; 2-3 harness threads each run one library call (boolean ops, Settle, Stroke, DivideBy, LoadFont of a font without name records) on their own inputs; every Pool.Get/Put, OnceFunc, Mutex operation and access to the font-name counter is a scheduling point and every Pool.Get is a data choice (newest/oldest/fresh or any pooled object); all schedules x pool answers within the bounds are enumerated and every call's result is compared bit-for-bit with its run-alone result; sequential pool-dirtying histories followed by a probe are enumerated the same way; a separate -race build runs the same bodies (plus text layout with a shared font, rasterizer, Flatten/Dash/Offset) free-running on all cores.",
          "trusted: the scheduler (one replay of every violation in a fresh process, divergence = hard error), Go's race detector for unhooked accesses (sampling); granularity = hooked operations; <=3 threads, preemptions <=2, deviations <=2", "DESIGN.md §5 C20"),
+ "C14": ("exploration", "exhaustive enumeration of the shape x fill rule x view x resolution x paint x colour space menus against a per-pixel winding oracle",
+         "Every combination of the menus is rendered by the real rasterizer; every pixel whose centre is more than one pixel from the transformed outline is compared with rule.Fills(winding) computed by the oracle on its own dense flattening; render-twice identity, immutability of path data and gradient stops, image size, vertical flip and paint order are checked on every case; strokes for all cap/join menus against the region of the outline Path.Stroke returns.",
+         "trusted: internal/oracle; 4/255 paint tolerance (scanline rasterizer quantisation, measured in the evidence); one known finding keyed by the input-only predicate 'outline leaves the image rectangle'", "DESIGN.md §5 C14"),
 }
 CUSTOM_CMD = {"C20": ("scripts/check_c20.sh quick", "scripts/check_c20.sh thorough")}
 REASON_PENDING = "check not built yet in this session (planned in DESIGN.md §9); not claimed until it exists and is green"
